@@ -83,6 +83,41 @@ class _Norm(ast.NodeTransformer):
         return ast.copy_location(ast.Constant(value="<str>"), node)
 
 
+class _MergeIfs(ast.NodeTransformer):
+    """`if a: if b: X` (no else arm on either, the inner `if` alone in the body) is `if a and b: X`; an `if T: continue` guard
+    clause at the head of a loop body followed by the rest is `if not T: <rest>`."""
+    def visit_If(self, node: ast.If):
+        self.generic_visit(node)
+        while not node.orelse and len(node.body) == 1 and isinstance(node.body[0], ast.If) and not node.body[0].orelse:
+            inner = node.body[0]
+            node.test = ast.BoolOp(op=ast.And(), values=[node.test, inner.test])
+            node.body = inner.body
+        if isinstance(node.test, ast.BoolOp) and isinstance(node.test.op, ast.And):
+            flat = []
+            for v in node.test.values:
+                flat += v.values if isinstance(v, ast.BoolOp) and isinstance(v.op, ast.And) else [v]
+            node.test.values = flat
+        return node
+
+    def _loop(self, node):
+        self.generic_visit(node)
+        body = node.body
+        i = next((k for k, st in enumerate(body) if isinstance(st, ast.If) and not st.orelse and len(st.body) == 1
+                  and isinstance(st.body[0], ast.Continue)), None)
+        if i is not None and i + 1 < len(body) and not any(isinstance(x, ast.Continue) for st in body[i + 1:] for x in ast.walk(st)):
+            g = body[i]
+            t = g.test
+            parts = t.values if isinstance(t, ast.BoolOp) and isinstance(t.op, ast.Or) else [t]
+            neg = [p.operand if isinstance(p, ast.UnaryOp) and isinstance(p.op, ast.Not) else ast.UnaryOp(op=ast.Not(), operand=p) for p in parts]
+            test = neg[0] if len(neg) == 1 else ast.BoolOp(op=ast.And(), values=neg)
+            node.body = body[:i] + [self.visit_If(ast.If(test=test, body=body[i + 1:], orelse=[]))]
+        return node
+
+    visit_For = _loop
+    visit_AsyncFor = _loop
+    visit_While = _loop
+
+
 def _normalise(stmts: List[ast.stmt], params: List[str]) -> List[str]:
     out = []
     n = _Norm(params)
@@ -90,6 +125,7 @@ def _normalise(stmts: List[ast.stmt], params: List[str]) -> List[str]:
         s2 = n.visit(copy.deepcopy(s))
         if s2 is None:
             continue
+        s2 = _MergeIfs().visit(s2)
         ast.fix_missing_locations(s2)
         out.append(ast.unparse(s2))
     return out
